@@ -1,5 +1,5 @@
 """Which units and lemmas serve which property (DESIGN §4/§5)."""
-from . import sm, ps, ef, z, mainspec, dynrf, mainloop, io, leaf
+from . import sm, ps, ef, z, mainspec, dynrf, mainloop, io, leaf, sig
 
 A_IDEAL = 'A-IDEAL: float/double arithmetic treated as real arithmetic, source literals exact (rounding not modelled)'
 A_SUMCOMM = 'L-SUMCOMM: interchange of finite double sums (column sums = 1 => total conserved) not machine-checked'
@@ -125,10 +125,11 @@ PROPERTIES = {
         'units': [ef.UpdateCSR, z.FreeSpaceCSRCalc, z.ResistiveWallCalc, z.ConstImpedanceCalc, z.ParallelPlatesCalc, z.CollimatorCtor, z.MakeImpedance],
         'lemmas': [],
         'level': 'other',
-        'claim': 'for a passive impedance the CSR spectrum is non-negative at every frequency and bunch, the integrated power is the frequency step times the sum of the spectrum and is non-negative '
-                 '(with or without cutoff); passivity of the impedance models is proved under C16',
+        'claim': 'every spectrum sample equals renorm * g(f_i) * Re Z[i] * |F_n[i]|^2 with the impedance and cut-off of THIS call (g = 1 or 1 - exp(-(f_i/f_c)^2)) and F_n the forward transform of bunch n current profile over the untouched padding; '
+                 'for a passive impedance the CSR spectrum is non-negative at every frequency and bunch, the integrated power is the frequency step times the sum of the spectrum and is non-negative '
+                 '(with or without cutoff); passivity of the impedance models and of the factory sum is proved under C16',
         'assumptions': [A_IDEAL, A_LIB, DROPS, 'L-PARSEVAL: equality with one half of profile times wake is not machine-checked', 'libm: 0 < exp(x), exp(x) <= 1 for x <= 0', 'multiplication abstracted to its sign rules'],
-        'uncovered': ['Parseval identity between spectrum power and wake loss', 'monotonicity in the cutoff'],
+        'uncovered': ['Parseval identity between spectrum power and wake loss (L-PARSEVAL)', 'monotonicity in the cutoff'],
         'explanation': 'sign and summation posts of updateCSR',
         'technique': TECH,
     },
@@ -227,12 +228,12 @@ PROPERTIES = {
         'technique': TECH,
     },
     'C14': {
-        'units': [mainloop.MainLoop],
+        'units': [mainloop.MainLoop, sig.SigintHandler, sig.SignalSetup],
         'lemmas': [],
         'level': 'other',
-        'claim': 'with the abort flag modelled as a monotone flag that may become set at every read, the loop can only be left at its head (a step in progress completes), the final-record block then appends exactly one record for the state reached when a file is open, '
+        'claim': 'the SIGINT handler writes Display::abort = true and nothing else; main binds SIGINT to it exactly once, before the loop, by a call that keeps it installed (so repeated interrupts are idempotent); with the abort flag modelled as a monotone flag that may become set at every read, the loop can only be left at its head (a step in progress completes), the final-record block then appends exactly one record for the state reached when a file is open, '
                  'all time-indexed datasets have equal length at exit, pending RF records are flushed, a closing message is printed and main returns EXIT_SUCCESS',
-        'assumptions': [DROPS, 'the SIGINT handler only sets Display::abort (not under contract: one assignment)', 'signal delivery does not make library calls fail', 'set-up phase before the loop is not covered'],
+        'assumptions': [DROPS, 'signal delivery does not make library calls fail', 'set-up phase before the loop is not covered', 'signal(2) has BSD semantics (glibc): the handler stays installed'],
         'uncovered': ['signals during set-up', 'HDF5 library behaviour under EINTR', 'identity of earlier records with the uninterrupted run (follows from C12 claim)'],
         'explanation': 'posts of the control skeleton at function exit',
         'technique': TECH,
